@@ -1371,6 +1371,55 @@ pub fn s_kcache(cx: &mut Ctx) {
     }
 }
 
+/// C17 / C01: the unique table with its real value type, including pairs of *different* triples
+/// whose wrapped 64-bit hashes are equal
+pub fn s_tnode(cx: &mut Ctx) {
+    let cases = if cx.thorough { 2000 } else { 60 };
+    let szu = |a: u64, b: u64| -> u64 {
+        if a < b {
+            b.wrapping_mul(b).wrapping_add(a)
+        } else {
+            a.wrapping_mul(a).wrapping_add(a).wrapping_add(b)
+        }
+    };
+    for _ in 0..cases {
+        cx.ex.begin_case();
+        let bits = 4 + cx.rng.below(5);
+        let bb = cx.rng.below(bits.min(4));
+        cx_op!(cx, format!("tn.new {} {}", bits, bb));
+        let uni = 2 + cx.rng.below(5);
+        for s in 0..(10 + cx.rng.below(40)) {
+            match cx.rng.below(10) {
+                0..=4 => {
+                    cx_op!(cx, format!("tn.put {} {} {}", 1 + cx.rng.below(3), 2 + cx.rng.below(uni), 2 + cx.rng.below(uni)));
+                }
+                5..=7 => {
+                    // hash twins: P = pair(lo,hi), P' = 2^64-1-P gives P*P+P = P'*P'+P' (mod 2^64)
+                    let (lo, hi) = ((1u64 << 31) + cx.rng.below(1 << 31), 2 + cx.rng.below((1 << 32) - 2));
+                    let vmax = if cx.rng.chance(1, 2) { 40 } else { (1 << 32) - 1 };
+                    let v = 1 + cx.rng.below(vmax);
+                    let p = szu(lo, hi);
+                    let (lo2, hi2) = unpair(u64::MAX - p);
+                    if lo2 >= 2 && hi2 >= 2 && lo2 < (1 << 32) && hi2 < (1 << 32) && p >= v && u64::MAX - p >= v {
+                        cx_op!(cx, format!("tn.put {} {} {}", v, lo, hi));
+                        cx_op!(cx, format!("tn.put {} {} {}", v, lo2, hi2));
+                        cx_op!(cx, format!("tn.put {} {} {}", v, lo, hi));
+                    }
+                }
+                _ => {
+                    cx.op("tn.dump".into());
+                }
+            }
+            let _ = s;
+        }
+        cx.op("tn.dump".into());
+        if cx.samples.len() < 3 {
+            let start = *cx.ex.case_starts.last().unwrap();
+            cx.samples.push(cx.ex.lines[start..].iter().take(10).cloned().collect());
+        }
+    }
+}
+
 /// C19: RawTable histories over small key universes with adversarial hashes
 pub fn s_raw(cx: &mut Ctx, dbg: bool) {
     let cases = if cx.thorough { 4000 } else { 70 };
@@ -1584,6 +1633,105 @@ pub fn s_gc_reuse(cx: &mut Ctx) {
     }
 }
 
+/// long runs of collections between a memoised operation and its repetition: K collections for K
+/// around 2^8 and 2^16 (counters of those widths wrap there), then the freed cells are reused for
+/// different functions and the first operations are asked again
+pub fn s_gcwrap(cx: &mut Ctx) {
+    let ks: &[u64] = if cx.thorough { &[255, 256, 257, 65535, 65536, 65537, 131072] } else { &[256, 65536] };
+    let variants = if cx.thorough { 12 } else { 4 };
+    for (ci, &k) in ks.iter().enumerate() {
+        for variant in 0..variants {
+            let n = 4u32;
+            cx_begin!(cx, n, format!("new 7 {} {}", variant % 2, 3 + variant % 3), 1_000_000);
+            let mut vars = vec![];
+            for v in 1..=n {
+                vars.push(cx_op!(cx, format!("var {}", v)));
+            }
+            let roots: Vec<String> = vars.iter().map(|r| r.to_string()).collect();
+            // one-node functions: each takes exactly one fresh cell, so the second round's handles
+            // carry the Ref values of the first round's
+            let one_node = |cx: &mut Ctx, vars: &[usize]| -> String {
+                let a = cx.rng.below(3) as usize;
+                let b = a + 1 + cx.rng.below(3 - a as u64) as usize;
+                match cx.rng.below(3) {
+                    0 => format!("and {} {}", vars[a], vars[b]),
+                    1 => format!("or {} {}", vars[a], vars[b]),
+                    _ => {
+                        let c = if b < 3 { b + 1 } else { b };
+                        if c != b && a < b {
+                            format!("ite {} {} {}", vars[a], vars[b], vars[c])
+                        } else {
+                            format!("and {} {}", vars[a], vars[b])
+                        }
+                    }
+                }
+            };
+            let first: Vec<String> = if variant == 0 {
+                vec![
+                    format!("and {} {}", vars[0], vars[2]),
+                    format!("or {} {}", vars[0], vars[3]),
+                    format!("ite {} {} {}", vars[0], vars[1], vars[2]),
+                    format!("or {} {}", vars[2], vars[3]),
+                ]
+            } else {
+                (0..4).map(|_| one_node(cx, &vars)).collect()
+            };
+            let mut made = vec![];
+            for l in &first {
+                made.push(cx.op(l.clone()));
+            }
+            // second-level questions, by position
+            let qs: Vec<(u64, usize, usize, usize)> = (0..6).map(|i| if variant == 0 && i < 3 { (i as u64, [1, 2, 2][i], [0, 3, 3][i], 0) } else { (cx.rng.below(5), cx.rng.below(4) as usize, cx.rng.below(4) as usize, cx.rng.below(4) as usize) }).collect();
+            let ask = |cx: &mut Ctx, m: &[usize]| {
+                for &(kind, a, b, c) in &qs {
+                    let l = match kind {
+                        0 => format!("constrain {} {}", m[a], m[b]),
+                        1 => format!("restrict {} {}", m[a], m[b]),
+                        2 => format!("compose {} {} {}", m[a], 2, m[b]),
+                        3 => format!("ite {} {} {}", m[a], m[b], m[c]),
+                        _ => format!("xor {} {}", m[a], m[b]),
+                    };
+                    let r = cx.op(l);
+                    cx_op!(cx, format!("size {}", r));
+                }
+            };
+            ask(cx, &made);
+            cx.op("digest".into());
+            for _ in 0..k {
+                cx_op!(cx, format!("gc {}", roots.join(" ")));
+            }
+            cx.op("dump".into());
+            cx.ex.scan(true);
+            // the same cells, different functions
+            let other: Vec<String> = if variant == 0 {
+                vec![
+                    format!("and {} {}", vars[0], vars[1]),
+                    format!("and {} {}", vars[2], vars[3]),
+                    format!("ite {} {} {}", vars[0], vars[2], vars[3]),
+                    format!("or {} {}", vars[0], vars[3]),
+                ]
+            } else {
+                (0..4).map(|_| one_node(cx, &vars)).collect()
+            };
+            let mut made2 = vec![];
+            for l in &other {
+                made2.push(cx.op(l.clone()));
+            }
+            cx.ex.scan_every = 1;
+            // the first questions again: same Ref values, different functions behind them
+            ask(cx, &made2);
+            for l in &first {
+                cx.op(l.clone());
+            }
+            cx.op("dump".into());
+            cx.end();
+        }
+        if ci == 0 {
+            cx.notes.push(format!("collection counts between memoisation and reuse: {:?}", ks));
+        }
+    }
+}
+
 /// histories over 8–40 variables in managers created by `Bdd::new(bits)` itself (default bucket and cache
 /// sizes, up to 2^20 cells); oracles: sampled evaluation on 64 assignments, signatures across collections,
 /// structural scans every 64 operations
@@ -1702,6 +1850,8 @@ pub fn run_suite(name: &str, cx: &mut Ctx) -> bool {
         "export" => s_export(cx),
         "table" => s_table(cx),
         "hugevar" => s_hugevar(cx),
+        "tnode" => s_tnode(cx),
+        "gcwrap" => s_gcwrap(cx),
         "cache" => s_cache(cx),
         "kcache" => s_kcache(cx),
         "raw" => s_raw(cx, cfg!(debug_assertions)),
@@ -1712,5 +1862,5 @@ pub fn run_suite(name: &str, cx: &mut Ctx) -> bool {
 }
 
 pub const ALL_SUITES: &[&str] = &[
-    "mk", "ite3", "conn", "hist", "gc_chain", "gc_reuse", "big", "soak", "memo", "subst", "compose", "constrain", "restrict", "itec", "count", "export", "table", "cache", "kcache", "raw", "eda", "hugevar",
+    "mk", "ite3", "conn", "hist", "gc_chain", "gc_reuse", "big", "soak", "memo", "subst", "compose", "constrain", "restrict", "itec", "count", "export", "table", "cache", "kcache", "raw", "eda", "hugevar", "gcwrap", "tnode",
 ];
